@@ -86,6 +86,30 @@ def front_channels(run: core.Run, pool: core.Pool, drv: core.Driver, sets: list[
             if v.get("guard") and (v["verdict"] in ("differ", "check-rejected", "silent-right", "budget") or (v["verdict"] == "silent-left" and wellformed_only)):
                 run.violation("front:base_graph_changes_behaviour", f"routine {v['r']}: following the edges of the base graph does not behave like the routine: {v['verdict']} {v.get('why', '')} after test outcomes {v.get('path')}",
                               {"rs": s["rs"], "verdict": v, "graph": real[i]["graphs"][v["r"]]})
+    # first rewriting phase (optimize_paths): the real graphs after it against the real base graphs
+    oreqs, oidx = [], []
+    for i, a in enumerate(real):
+        if a and isinstance(a.get("opt"), list) and "graphs" in a:
+            oreqs.append({"op": "decomp.validate_opt", "labels": a["labels"], "rtns": a["rtns"], "graphs": a["graphs"], "opt": a["opt"]})
+            oidx.append(i)
+        elif a and isinstance(a.get("opt"), dict):
+            cnt["optimize_raises:" + a["opt"].get("error", "?")] += 1
+    for i, rep in zip(oidx, drv.batch_parallel(oreqs, jobs)):
+        if "error" in rep:
+            cnt["validate_opt_error"] += 1
+            run.broken_tie("decomp.validate_opt failed: " + str(rep["error"])[:200], {"channel": "decomp.validate_opt", "rs": sets[i]["rs"]})
+            continue
+        for v in rep["opt"]:
+            changed = real[i]["graphs"][v["r"]] != real[i]["opt"][v["r"]]
+            cnt["optimize:" + v["verdict"] + (":changed" if changed else "")] += 1
+            if not v["graph_ok"]:
+                cnt["base_graph_not_ok"] += 1
+                run.broken_tie("a real base graph does not have the structure optimize_paths relies on (graphOk)", {"channel": "graphOk", "rs": sets[i]["rs"], "graph": real[i]["graphs"][v["r"]]})
+            if v["no_silent_cycle"] and v["verdict"] != "equiv":
+                run.violation("front:optimize_paths_changes_behaviour", f"routine {v['r']}: the graph after optimize_paths does not behave like the base graph: {v['verdict']} {v.get('why', '')} after test outcomes {v.get('path')}",
+                              {"rs": sets[i]["rs"], "verdict": v, "base": real[i]["graphs"][v["r"]], "optimized": real[i]["opt"][v["r"]]})
+            if v["guard"] and v["no_silent_cycle"] and v["readings"] != "equiv":
+                run.broken_tie("positional and edge-based reading of a real base graph disagree", {"channel": "readings", "rs": sets[i]["rs"], "graph": real[i]["graphs"][v["r"]]})
     # environment model: igraph incident-edge order
     st = pool.map("harness.impl_decomp:igraph_order_selftest", [{"seed": run.seed, "n": 150}], timeout=60)[0]
     if not isinstance(st, dict) or st.get("bad"):
